@@ -24,6 +24,13 @@ type Yield struct {
 	Pos  string // expression-position kind of this yield (evidence)
 	Site int    // static site number (async: selects the await mode)
 }
+
+// AwRaw: in the async subject `AW(Site, Arg)` WITHOUT await (used as a return value: the async function then returns
+// a promise / thenable, which costs extra ticks); in a generator it is just Arg.
+type AwRaw struct {
+	Arg  Expr
+	Site int
+}
 type Bin struct {
 	Op   string // + - * < === !== ,
 	L, R Expr
@@ -42,6 +49,7 @@ type Assign struct {
 	Target Expr   // *Ident or *Member
 	V      Expr
 }
+
 // AssignPat: destructuring assignment expression `([o.p = d, x] = V)` / `({k: o[q] = d} = V)`.
 type AssignPat struct {
 	Target Pattern // *PArr or *PObj whose leaf targets are *PIdent or *PMember
@@ -278,6 +286,14 @@ func (p *printer) expr(e Expr) {
 			p.expr(x.Arg)
 		}
 		p.w(")")
+	case *AwRaw:
+		if p.async {
+			fmt.Fprintf(&p.b, "AW(%d, ", x.Site)
+			p.expr(x.Arg)
+			p.w(")")
+		} else {
+			p.expr(x.Arg)
+		}
 	case *Bin:
 		p.w("(")
 		p.expr(x.L)
